@@ -137,7 +137,8 @@ def main(pid):
         vd.violation(cl, {"text": corpus[rc["text"]], "remove_ambiguous": bool(rc["opt"]), "seed": rc["seed"],
                           "thread": rc["th"], "history": items[rc["hist"]]["hist"] if rc["hist"] >= 0 else rc["th"],
                           "baseline_seed0": base[rc["text"]][rc["opt"]][:1500]},
-                     {"clause": cl, "tie_text": corpus[rc["text"]] in tie_texts})
+                     {"clause": cl, "tie_text": corpus[rc["text"]] in tie_texts},
+                     judge=vlib.J("Trace_Purity", "Trace_Purity.cfg", rc))
     ev.sample({"history": hists[len(hists) // 2], "texts_with_unmerged_ties": tie_texts[:6]})
     ev.cov["traces_validated_against_impl"] = len(recs)
     ev.cov["evaluations"] = len(recs)
